@@ -65,8 +65,32 @@ def dictionaries(n):
                 yield [list(p) for p in perm]
 
 
+def check_long_chain(ctx=None):
+    """A long, only partially applicable chain is either applied or rejected with a documented error - nothing else."""
+    fails = []
+    for n, first in ((1500, "head-first"), (1500, "tail-first")):
+        pairs = [[f"k{i}", f"k{i + 1}"] for i in range(n)]
+        pairs[0][0] = "a"          # the head of the chain is a known prefix, every other link is unknown
+        if first == "tail-first":
+            pairs.reverse()
+        conv = make_base(0)
+        try:
+            res = remap_curie_prefixes(conv, {k: v for k, v in pairs})
+        except Exception as e:  # noqa
+            if type(e).__name__ not in DOCUMENTED:
+                fails.append((f"undocumented-exception/{type(e).__name__}", f"chain of {n} links ({first}): {type(e).__name__}"))
+            continue
+        got = {r.uri_prefix: r.prefix for r in res.records}
+        if got.get("x") != "k1" or set(model_of(conv).all_prefixes()) - set(res.prefix_map):
+            fails.append(("applicable-pair-not-applied", f"chain of {n} links ({first}): record a is named {got.get('x')!r}"))
+        if ctx is not None:
+            ctx.count("long_chains")
+            ctx.count("transitions")
+    return fails
+
+
 def units(tier, seed):
-    us = []
+    us = [{"kind": "long-chain"}]
     for b in range(len(BASES)):
         if b in SHADOW.values():
             continue
@@ -228,6 +252,10 @@ def check(base_idx, pairs, twice=False, ctx=None):
 
 
 def run_unit(unit, ctx):
+    if unit.get("kind") == "long-chain":
+        for sig, msg in check_long_chain(ctx):
+            ctx.violation("C11/" + sig, msg, {"kind": "long-chain"})
+        return
     n = unit["n"]
     for keys in unit["keysets"]:
         for values in it.product(names(unit["base"]), repeat=n):
@@ -245,6 +273,8 @@ def run_unit(unit, ctx):
 
 
 def replay(case):
+    if case.get("kind") == "long-chain":
+        return [("C11/" + s, m) for s, m in check_long_chain(None)]
     if "after_base" in case:   # the same dictionary was applied to another converter with the same vocabulary just before
         check(case["after_base"], case["pairs"], True, None)
     return [("C11/" + s, m) for s, m in check(case["base"], case["pairs"], case.get("twice", False), None)]
